@@ -37,6 +37,27 @@ func c15Proj(n *yaml.Node) any {
 	return []any{int(n.Kind), n.Tag, int(n.Style), n.Value, n.HeadComment, n.LineComment, n.FootComment, kids}
 }
 
+// c15ProjRoot projects the root of a definition; the comments yaml.v3 attaches to the DOCUMENT node (a comment block at
+// the top of the text that a blank line separates from the first key, a comment block at the end) are shown as head /
+// foot comment of the root, where the text has them, so that the check sees them too.
+func c15ProjRoot(doc, root *yaml.Node) any {
+	p := c15Proj(root).([]any)
+	join := func(a, b string) string {
+		if a == "" {
+			return b
+		}
+		if b == "" {
+			return a
+		}
+		return a + "\n" + b
+	}
+	if doc != nil && doc.Kind == yaml.DocumentNode {
+		p[4] = join(doc.HeadComment, root.HeadComment)
+		p[6] = join(root.FootComment, doc.FootComment)
+	}
+	return p
+}
+
 // root of a parsed definition: Content[0] of the document, or a zero node for an empty definition
 func c15Root(text []byte) (*yaml.Node, *yaml.Node, error) {
 	var d yaml.Node
@@ -239,18 +260,22 @@ func c15(c map[string]any) map[string]any {
 
 	doc, root, err := c15Root(cur)
 	if err != nil {
-		return map[string]any{"docerr": true}
+		// the definition text itself is refused by yaml.v3: reported (and counted by the check), with the answer of a
+		// second, independent decode of the same text (into a plain Go value)
+		var generic any
+		gerr := yaml.Unmarshal(cur, &generic)
+		return map[string]any{"docerr": true, "docerr_text": err.Error(), "generic_ok": gerr == nil}
 	}
-	res["doc0"] = c15Proj(root)
+	res["doc0"] = c15ProjRoot(doc, root)
 	// is the initial text stable under Marshal/Unmarshal (the yaml.v3 round trip the CLI relies on)?
 	if root.Kind != 0 {
-		if b, err := yaml.Marshal(root); err == nil {
-			if _, r2, err := c15Root(b); err == nil {
-				res["doc0rt"] = c15Proj(r2)
+		if b, err := yaml.Marshal(doc); err == nil {
+			if d2, r2, err := c15Root(b); err == nil {
+				res["doc0rt"] = c15ProjRoot(d2, r2)
 			}
 		}
 	} else {
-		res["doc0rt"] = c15Proj(root)
+		res["doc0rt"] = c15ProjRoot(doc, root)
 	}
 
 	fake := &c15Client{def: cur}
@@ -309,7 +334,14 @@ func c15(c map[string]any) map[string]any {
 			})
 			if status == "ok" {
 				st2 := c15Guard(func() error {
-					b, err := yaml.Marshal(doc.Content[0])
+					// the whole document, so that the comments of the document node are written back as well
+					var b []byte
+					var err error
+					if doc.Content[0].Kind == 0 {
+						b, err = yaml.Marshal(doc.Content[0])
+					} else {
+						b, err = yaml.Marshal(doc)
+					}
 					if err != nil {
 						return err
 					}
@@ -349,9 +381,18 @@ func c15(c map[string]any) map[string]any {
 
 		// `env set --secret <text>`: what the stored definition OPENS to after the write-back every backend performs
 		// (eval.EncryptSecrets with the environment's key) must be the given text, flagged secret
-		if mode == "cli" && kind == "set" && secret && status == "ok" && perr == nil && val != nil &&
-			val.Kind == yaml.ScalarNode && val.Tag == "!!str" {
-			step["opened"] = c15Opened(cur, path, val.Value)
+		// for every value the command accepts with --secret: a string scalar is stored as it is, any other scalar is
+		// replaced by the command-line text itself; a collection is wrapped as it is (fn::secret of a non-string, which
+		// the loader refuses: reported as "nonscalar:<outcome>" and never counted as a pass)
+		if mode == "cli" && kind == "set" && secret && status == "ok" && perr == nil && val != nil {
+			switch {
+			case val.Kind == yaml.ScalarNode && val.Tag == "!!str":
+				step["opened"] = c15Opened(cur, path, val.Value)
+			case val.Kind == yaml.ScalarNode:
+				step["opened"] = c15Opened(cur, path, valText)
+			default:
+				step["opened"] = "nonscalar:" + c15Opened(cur, path, "")
+			}
 		}
 
 		// what is stored now
@@ -361,7 +402,7 @@ func c15(c map[string]any) map[string]any {
 			step["text"] = string(cur)
 			break
 		}
-		step["after"] = c15Proj(r2)
+		step["after"] = c15ProjRoot(d2, r2)
 		if perr == nil {
 			gp := path
 			if mode == "cli" {
@@ -386,7 +427,10 @@ func c15(c map[string]any) map[string]any {
 		}
 		// the real `env get --definition` on what is stored (CLI mode, successful commands only)
 		if mode == "cli" && status == "ok" && perr == nil && len(path) > 0 {
-			if env, diags, err := fake.CheckYAMLEnvironment(context.Background(), "org", cur); err == nil && env != nil && len(diags) == 0 {
+			env, diags, cerr := fake.CheckYAMLEnvironment(context.Background(), "org", cur)
+			if !(cerr == nil && env != nil && len(diags) == 0) {
+				step["cliget_skipped"] = "not-loadable" // `env get` needs the checked environment; counted by the check
+			} else {
 				var out string
 				gst := c15Guard(func() error {
 					o, _, err := cli.VerifC15Run(fake, []string{"env", "get", "--definition", "--", c15Env, pathText})
@@ -394,6 +438,9 @@ func c15(c map[string]any) map[string]any {
 					return err
 				})
 				step["cliget_status"] = gst
+				if gst != "ok" {
+					step["cliget"] = "failed"
+				}
 				if gst == "ok" {
 					if strings.TrimSpace(out) == "" {
 						step["cliget"] = "missing"
